@@ -194,6 +194,79 @@ def main(chk):
     chk.count(key2)
     if bad:
       chk.violation(key2, bad, beh)
+    # ---------------- nested inside a parent of the other API (same histories; the wrapper's variables sit under the child's name)
+    key3 = key2.replace('ToLinen', 'nested')
+    try:
+      bad = None
+
+      class LParent(nn.Module):          # a Linen parent holding a ToLinen child
+        @nn.compact
+        def __call__(self):
+          s0 = self.param('s', lambda k: jnp.asarray(1.0))
+          return s0 * bridge.to_linen(NLayer, kids, name='inner')()
+
+      class NParent(nnx.Module):         # an NNX parent holding a ToNNX child
+        def __init__(self):
+          self.scale = nnx.Param(jnp.asarray(1.0))
+          self.inner = bridge.ToNNX(Layer(kids), rngs=nnx.Rngs(0))
+
+        def __call__(self, mutable):
+          out = self.inner(mutable=['batch_stats']) if mutable else self.inner()
+          return self.scale.value * out
+      lp = LParent()
+      lvars = lp.init(jax.random.key(0))
+      np_ = NParent()
+      bridge.lazy_init(np_.inner)
+      jcall = nnx.jit(lambda m, mutable: m(mutable), static_argnums=1)
+      direct = NLayer(kids, nnx.Rngs(0))
+      for i, c in enumerate(beh['calls']):
+        if c['mutable']:
+          lout, upd = lp.apply(lvars, mutable=['batch_stats'])
+          lvars = {**lvars, **upd}
+          dout = direct()
+        else:
+          lout = lp.apply(lvars)
+          snap = nnx.state(direct)
+          dout = direct()
+          nnx.update(direct, snap)
+        # the NNX parent: alternately called eagerly, under nnx.jit, and after a split / merge round trip
+        if i % 3 == 1:
+          nout = jcall(np_, c['mutable'])
+        elif i % 3 == 2:
+          np_ = nnx.merge(*nnx.split(np_))
+          nout = np_(c['mutable'])
+        else:
+          nout = np_(c['mutable'])
+        if float(lout) != float(dout):
+          bad = f'call {i + 1}: a ToLinen child inside a Linen parent returned {float(lout)}, the NNX module with the same state {float(dout)}'
+          break
+        if float(nout) != float(c['out']):
+          bad = (f'call {i + 1}: a ToNNX child inside an NNX parent ({["eager", "nnx.jit", "after split/merge"][i % 3]}) returned {float(nout)}, '
+                 f'specification {c["out"]}')
+          break
+        node = lvars.get('batch_stats', {}).get('inner', {})
+        lc_ = {}
+        for pth in layers:
+          n2 = node
+          for k in pth:
+            n2 = n2[k]
+          leaf = n2['c']
+          lc_[tuple(pth)] = float(np.asarray(leaf.unbox() if hasattr(leaf, 'unbox') else leaf))
+        want = {tuple(pth): cnt for pth, cnt in c['refcnt']}
+        if lc_ != {k: float(v) for k, v in want.items()}:
+          bad = f'call {i + 1}: counters under the ToLinen child\'s name {lc_}, specification {want}'
+          break
+        ncnt = {tuple(pth[1:-1]): float(np.asarray(v.value)) for pth, v in nnx.to_flat_state(nnx.state(np_, nnx.BatchStat))}
+        if ncnt != {k: float(v) for k, v in want.items()}:
+          bad = f'call {i + 1}: counters held by the ToNNX child of the NNX parent {ncnt}, specification {want}'
+          break
+      if not bad and ('inner' not in lvars['params'] or 's' not in lvars['params']):
+        bad = f'the ToLinen child\'s parameters are not under its name: {sorted(lvars["params"])}'
+    except Exception as e:
+      bad = f'raised {type(e).__name__}: {str(e)[:200]}'
+    chk.count(key3)
+    if bad:
+      chk.violation(key3, bad, beh)
   chk.sample({'spec': 'Bridge', 'history': {k: res['exports'][-1][k] for k in ('shape', 'calls')}})
 
   # ---- Variable subclasses keep their own collection; rng state round-trips through mutable outputs
